@@ -158,7 +158,8 @@ def run(tier: str) -> int:
     known = {k["id"]: k for k in harness.known_for(PROP)}
     # ---- Set A
     jobs = [("bin", op) for op in e2.table_keys("get_binop_instruction")] + [("un", op) for op in e2.table_keys("get_unop_instruction")] + [("e_hash", "_e(HASH)")]
-    resA = harness.pmap(e2.c03_one_operator, jobs)
+    resA = harness.pmap(e2.c03_one_operator, jobs,
+                        placeholder=lambda it, st, d: ({}, [dict(op=it[1], typing="-", kind="inconclusive", detail=f"{st}: {d}")], []))
     tot = dict(obligations=0, unsat=0, sat=0, unknown=0, model_gaps=0, paths=0, solver_s=0.0)
     samples = []
     for (kind, op), (st, findings, smp) in zip(jobs, resA):
@@ -167,6 +168,7 @@ def run(tier: str) -> int:
         samples += smp
         for f in findings:
             if f["kind"] == "inconclusive":
+                rep.notes.append(f"note: operator {f['op']}: inconclusive ({f.get('detail')})")
                 continue
             kid = KNOWN_OPS.get(f["op"])
             if kid and kid in known:
